@@ -13,6 +13,8 @@
 (define-fun-rec drop_{L} ((n Int) (l {L})) {L} (ite (or (<= n 0) ((_ is nil_{L}) l)) l (drop_{L} (- n 1) (tl_{L} l))))
 (define-fun-rec upd_{L} ((l {L}) (i Int) (v {E})) {L} (ite ((_ is nil_{L}) l) nil_{L} (ite (<= i 0) (cons_{L} v (tl_{L} l)) (cons_{L} (hd_{L} l) (upd_{L} (tl_{L} l) (- i 1) v)))))
 (define-fun snocl_{L} ((l {L}) (v {E})) {L} (cat_{L} l (cons_{L} v nil_{L})))
+(define-fun-rec lastl_{L} ((l {L})) {E} (ite ((_ is nil_{L}) (tl_{L} l)) (hd_{L} l) (lastl_{L} (tl_{L} l))))
+(define-fun-rec replast_{L} ((l {L}) (v {E})) {L} (ite ((_ is nil_{L}) l) nil_{L} (ite ((_ is nil_{L}) (tl_{L} l)) (cons_{L} v nil_{L}) (cons_{L} (hd_{L} l) (replast_{L} (tl_{L} l) v)))))
 
 ; @template Trace
 (declare-datatypes (({T} 0)) (((emp_{T}) (snoc_{T} (init_{T} {T}) (last_{T} {E})))))
@@ -163,3 +165,49 @@
 (assert (forall ((s {S}) (o Int)) (! (= (fput_{S}_{A} s o (fget_{S}_{A} s o)) s) :pattern ((fget_{S}_{A} s o)))))
 (assert (forall ((s {S}) (o Int) (a {A}) (b {A})) (! (= (fput_{S}_{A} (fput_{S}_{A} s o a) o b) (fput_{S}_{A} s o b)) :pattern ((fput_{S}_{A} (fput_{S}_{A} s o a) o b)))))
 (assert (forall ((s {S}) (o Int) (a {A}) (p Int)) (! (=> (distinct o p) (= (fget_{S}_{A} (fput_{S}_{A} s o a) p) (fget_{S}_{A} s p))) :pattern ((fget_{S}_{A} (fput_{S}_{A} s o a) p)))))
+
+; @template TypeName
+; duct.typeName: "*" / "[]" prefixes over the name reflect reports for the element type
+(define-fun-rec tname ((t RType)) Str (ite ((_ is rt_ptr) t) (str_cat {S_PTR} (tname (rt_pelem t))) (ite ((_ is rt_slice) t) (str_cat {S_SLICE} (tname (rt_selem t))) (rname t))))
+
+; @template Duct
+; the duct AST as an owned tree. Visitor events: (kind, depth, node), kind 1 morphism (root
+; sequence), 2 nested sequence, 3 map, 4 from, 5 yield; leave events carry the negated kind.
+; cberr(v, k) is the error visitor v returns from its k-th callback.
+(declare-fun cberr (Ref Int) Err)
+(define-fun nodekind ((n {N})) Int (ite ((_ is {C_SEQ}) n) (ite ({SEQ}_Root ({C_SEQ}_v n)) 1 2) (ite ((_ is {C_MAP}) n) 3 (ite ((_ is {C_FROM}) n) 4 5))))
+(define-funs-rec (
+  (walkT ((v Ref) (n {N}) (d Int) (tr {T})) {T})
+  (walkE ((v Ref) (n {N}) (d Int) (tr {T})) Err)
+  (walkKT ((v Ref) (l {LN}) (d Int) (tr {T})) {T})
+  (walkKE ((v Ref) (l {LN}) (d Int) (tr {T})) Err))
+ (
+  (let ((t1 (snoc_{T} tr (vev (nodekind n) d n))))
+    (ite (distinct (cberr v (tlen_{T} tr)) err_nil) t1
+      (let ((t2 (ite ((_ is {C_SEQ}) n) (walkKT v ({SEQ}_Seq ({C_SEQ}_v n)) (+ d 1) t1) t1))
+            (e2 (ite ((_ is {C_SEQ}) n) (walkKE v ({SEQ}_Seq ({C_SEQ}_v n)) (+ d 1) t1) err_nil)))
+        (ite (distinct e2 err_nil) t2 (snoc_{T} t2 (vev (- 0 (nodekind n)) d n))))))
+  (let ((t1 (snoc_{T} tr (vev (nodekind n) d n))))
+    (ite (distinct (cberr v (tlen_{T} tr)) err_nil) (cberr v (tlen_{T} tr))
+      (let ((t2 (ite ((_ is {C_SEQ}) n) (walkKT v ({SEQ}_Seq ({C_SEQ}_v n)) (+ d 1) t1) t1))
+            (e2 (ite ((_ is {C_SEQ}) n) (walkKE v ({SEQ}_Seq ({C_SEQ}_v n)) (+ d 1) t1) err_nil)))
+        (ite (distinct e2 err_nil) e2 (cberr v (tlen_{T} t2))))))
+  (ite ((_ is nil_{LN}) l) tr
+    (ite (distinct (walkE v (hd_{LN} l) d tr) err_nil) (walkT v (hd_{LN} l) d tr) (walkKT v (tl_{LN} l) d (walkT v (hd_{LN} l) d tr))))
+  (ite ((_ is nil_{LN}) l) err_nil
+    (ite (distinct (walkE v (hd_{LN} l) d tr) err_nil) (walkE v (hd_{LN} l) d tr) (walkKE v (tl_{LN} l) d (walkT v (hd_{LN} l) d tr))))))
+; ins(t, n): n becomes the last child of the innermost still-open (Deferred) sequence on
+; the last-child spine of t (nothing changes when t itself is closed);
+; closeinner(t): the innermost open non-root sequence on that spine is closed
+(define-fun-rec ins ((t {SEQ}) (n {N})) {SEQ}
+  (ite (not ({SEQ}_Deferred t)) t
+    (ite ((_ is nil_{LN}) ({SEQ}_Seq t)) (mk_{SEQ} ({SEQ}_Root t) ({SEQ}_Deferred t) (cons_{LN} n nil_{LN}))
+      (let ((l (lastl_{LN} ({SEQ}_Seq t))))
+        (ite (and ((_ is {C_SEQ}) l) ({SEQ}_Deferred ({C_SEQ}_v l)))
+          (mk_{SEQ} ({SEQ}_Root t) ({SEQ}_Deferred t) (replast_{LN} ({SEQ}_Seq t) ({C_SEQ} (ins ({C_SEQ}_v l) n))))
+          (mk_{SEQ} ({SEQ}_Root t) ({SEQ}_Deferred t) (snocl_{LN} ({SEQ}_Seq t) n)))))))
+(define-fun-rec closeinner ((t {SEQ})) {SEQ}
+  (ite (not ({SEQ}_Deferred t)) t
+    (ite (and (not ((_ is nil_{LN}) ({SEQ}_Seq t))) ((_ is {C_SEQ}) (lastl_{LN} ({SEQ}_Seq t))) ({SEQ}_Deferred ({C_SEQ}_v (lastl_{LN} ({SEQ}_Seq t)))))
+      (mk_{SEQ} ({SEQ}_Root t) ({SEQ}_Deferred t) (replast_{LN} ({SEQ}_Seq t) ({C_SEQ} (closeinner ({C_SEQ}_v (lastl_{LN} ({SEQ}_Seq t)))))))
+      (mk_{SEQ} ({SEQ}_Root t) (ite ({SEQ}_Root t) ({SEQ}_Deferred t) false) ({SEQ}_Seq t)))))
